@@ -42,6 +42,7 @@ type Event struct {
 	Stack  []string
 	Instr  ssa.Instruction
 	Guards map[string]bool // undecided branch outcomes holding at the event (copy and ext-call events)
+	GuardL []GuardInfo
 }
 
 type StoreEvent struct {
@@ -136,6 +137,36 @@ func (ip *Interp) Imprecise(why string) {
 }
 
 func (ip *Interp) CurFn() *ssa.Function { return ip.curFn() }
+
+// GuardInfo is one undecided branch outcome known to hold at a program point.
+type GuardInfo struct {
+	Key     string
+	Outcome bool
+	Cmp     *CmpInfo // the comparison (after removing negations Outcome refers to Cmp itself)
+}
+
+// GuardList is Guards with the comparisons' operands.
+func (ip *Interp) GuardList(st *State) []GuardInfo {
+	var out []GuardInfo
+	if len(ip.acts) == 0 || st == nil {
+		return out
+	}
+	act := ip.acts[len(ip.acts)-1]
+	for k, v := range st.refine {
+		b, ok := v.(*Bool)
+		if !ok || b.K == TriTop {
+			continue
+		}
+		if ev, ok := act.env[k].(*Bool); ok && ev.K == TriTop {
+			o := b.K == TriT
+			if ev.Neg {
+				o = !o
+			}
+			out = append(out, GuardInfo{Key: ValKey(ev), Outcome: o, Cmp: ev.Cmp})
+		}
+	}
+	return out
+}
 
 // Guards returns the undecided branch conditions (key -> outcome) known to hold at
 // the current point of the innermost activation.
@@ -291,6 +322,7 @@ func (ip *Interp) Call(fn *ssa.Function, args []Val, bind []Val, st *State) (res
 	ins := map[*ssa.BasicBlock][]edgeIn{fn.Blocks[0]: {{nil, entry}}}
 	var retVals []Val
 	var retStates []*State
+	var retBlocks []*ssa.BasicBlock
 
 	for _, b := range order {
 		in := ins[b]
@@ -387,6 +419,7 @@ func (ip *Interp) Call(fn *ssa.Function, args []Val, bind []Val, st *State) (res
 				}
 				retVals = append(retVals, rv)
 				retStates = append(retStates, &State{Heap: cur.Heap})
+				retBlocks = append(retBlocks, b)
 				live = false
 			case *ssa.Panic:
 				ip.event(Event{Kind: "panic", Args: []Val{ip.get(act, cur, t.X)}, Instr: t})
@@ -406,11 +439,20 @@ func (ip *Interp) Call(fn *ssa.Function, args []Val, bind []Val, st *State) (res
 	}
 	res = retVals[0]
 	outS := retStates[0]
-	for i := 1; i < len(retStates); i++ {
-		if res != nil {
-			res = ip.JoinVal(res, retVals[i])
+	if len(retStates) > 1 {
+		// merge the returns like the predecessors of a virtual exit block
+		in := make([]edgeIn, len(retStates))
+		idxs := make([]int, len(retStates))
+		for i := range retStates {
+			in[i] = edgeIn{pred: retBlocks[i], st: retStates[i]}
+			idxs[i] = i
 		}
-		outS = &State{Heap: ip.joinHeaps(outS.Heap, retStates[i].Heap)}
+		tree := ip.buildMerge(act, nil, in, idxs)
+		outS = ip.foldState(tree, in)
+		if res != nil {
+			res = ip.foldVal(tree, func(e int) Val { return retVals[e] })
+		}
+		ip.gate, ip.gateExact, ip.gateSwap = "", false, false
 	}
 	return res, &State{Heap: outS.Heap, refine: st.refine}
 }
@@ -1376,7 +1418,7 @@ func (ip *Interp) builtin(act *activation, st *State, site ssa.CallInstruction, 
 		return v.reduce(), true
 	case "copy":
 		dst, _ := args[0].(*Slice)
-		ev := ip.event(Event{Kind: "copy", Args: args, Instr: site, Guards: ip.Guards(st)})
+		ev := ip.event(Event{Kind: "copy", Args: args, Instr: site, Guards: ip.Guards(st), GuardL: ip.GuardList(st)})
 		hi := uint64(1 << 40)
 		if dst != nil && dst.Len.Hi < hi {
 			hi = dst.Len.Hi
@@ -1438,6 +1480,13 @@ func (ip *Interp) builtin(act *activation, st *State, site ssa.CallInstruction, 
 		return nil, false
 	case "print", "println":
 		return nil, true
+	case "ssa:wrapnilchk":
+		// wrapper-method nil check: returns its first argument unless it is nil
+		if ip.nilness(args[0]) == TriT {
+			ip.event(Event{Kind: "panic", Args: args, Instr: site})
+			return nil, false
+		}
+		return args[0], true
 	case "delete":
 		ip.event(Event{Kind: "map-update", Callee: "delete", Args: args, Instr: site})
 		return nil, true
